@@ -120,16 +120,19 @@ def run(rep, tier, seed, model_ok=True, effort=1):
 
 
 CLI_PATTERNS = [("vYYYY0M.BUILD[-TAG]", "v2021%02d.%s", r"^v\d{6}\.(\d+)"), ("YYYY.BUILD", "2021.%s", r"^\d{4}\.(\d+)$"), ("vMAJOR.MINOR.BUILD[-TAG[NUM]]", "v3.1.%s", r"^v\d+\.\d+\.(\d+)"),
-                ("BUILD.INC0", "%s.4", r"^(\d+)\.")]
+                ("BUILD.INC0", "%s.4", r"^(\d+)\."),
+                # a resettable part to the right of BUILD; ISO year and week next to BUILD (its name contains a U)
+                ("YYYY.BUILD[PYTAGNUM]", "2021.%sb0", r"^\d{4}\.(\d+)"), ("vYYYY.BUILD[-TAGNUM]", "v2021.%s-beta1", r"^v\d{4}\.(\d+)"),
+                ("GGGG.0V.BUILD", "2021.05.%s", r"^\d{4}\.\d\d\.(\d+)$"), ("vGGGGw0V.BUILD[-TAG]", "v2021w05.%s", r"^v\d{4}w\d\d\.(\d+)")]
 
 
 def cli_stream(rep, r, n):
     """every successful bump through the CLI, whatever else it changes (date, tag, pinned increments, MAJOR ...), moves BUILD up"""
     import re as _re
     from . import impl
-    for _ in range(n):
-        pat, tmpl, rx = r.choice(CLI_PATTERNS)
-        bid = r.choice(["7", "42", "099", "0998", "1001", "1999", "22000", "0001", "9998", "10999", "899999", str(r.randrange(0, 99999))])
+    for i_ in range(n):
+        pat, tmpl, rx = CLI_PATTERNS[i_ % len(CLI_PATTERNS)]
+        bid = r.choice(["7", "42", "099", "0998", "1001", "1999", "22000", "0001", "9998", "10999", "899999", "01234", "09997", "000123", "0010000", str(r.randrange(0, 99999))])
         old = tmpl % ((r.randrange(1, 12), bid) if tmpl.count("%") == 2 else (bid,))
         args = ["test", old, pat]
         flags = []
@@ -139,7 +142,7 @@ def cli_stream(rep, r, n):
             flags += ["--tag", r.choice(["alpha", "beta", "rc", "post"])]
         if "MAJOR" in pat and r.random() < 0.4:
             flags.append(r.choice(["--major", "--minor"]))
-        if "YYYY" in pat:
+        if "YYYY" in pat or "GGGG" in pat:
             flags += r.choice([["--pin-date"], ["--date", "2021-%02d-15" % r.randrange(1, 13)], ["--date", "2022-03-01"], []])
         code, out, exc = impl.run_cli(args + flags)
         new = impl.parse_new_version(out) if code == 0 else None
